@@ -234,7 +234,19 @@ class TypesCodeGenerator:
         if type_def.kind != "literal":
             return generated_name
         name = generated_name
-        while self._literal_class_owners.get(name, type_def) is not type_def:
+        declared = {
+            t.name
+            for t in [
+                *self._lsp_model.structures,
+                *self._lsp_model.enumerations,
+                *self._lsp_model.typeAliases,
+            ]
+        }
+        # (nor with the name of a type the model declares)
+        while (
+            name in declared
+            or self._literal_class_owners.get(name, type_def) is not type_def
+        ):
             name += "_"
         self._literal_class_owners[name] = type_def
         return name
